@@ -161,6 +161,15 @@ def ops_for(x, level="full"):
         if n <= 2:
             add(Op("outer(x,x.conj())", lambda x: sr.tensordot(x, x.conj(), 0), tags=("contract",)))
             add(Op("x@x.dagger()", lambda x: x @ x.dagger(), tags=("contract",)))
+    if n >= 1 and len(x.blocks) >= 2:
+        # partners that store fewer sectors than x: alignment drops blocks and charges (also from fused indices)
+        for mode in modes:
+            add(Op(f"tensordot(x,sparse(x.conj()),((0,),(0,)))[{mode}]", lambda x, m=mode: sr.tensordot(x, _sparse(x.conj()), ((0,), (0,)), mode=m), tags=("contract",)))
+        add(Op(f"tensordot(sparse(x.dagger()),x,{n})", lambda x: sr.tensordot(_sparse(x.dagger()), x, (tuple(range(x.ndim)), tuple(range(x.ndim - 1, -1, -1))), preserve_array=True), tags=("contract",)))
+        add(Op("align_axes(x,sparse(x.conj()),((0,),(0,)))", lambda x: sr.align_axes(x, _sparse(x.conj()), ((0,), (0,)))))
+        add(Op("align_axes(sparse(x),x.conj(),((-1,),(-1,)))", lambda x: sr.align_axes(_sparse(x.copy(), 1), x.conj(), ((x.ndim - 1,), (x.ndim - 1,)))))
+        add(Op("sparse(x).sync_charges", lambda x: _sparse(x.copy()).sync_charges()))
+        add(Op("multiply_diagonal(v-missing,0);sync_charges", lambda x: x.multiply_diagonal(vector_for(x, 0, True), 0).sync_charges()))
     pairs = matching_pairs(x)
     letters = "abcdefgh"
     if n >= 2:
@@ -245,6 +254,16 @@ def ops_for(x, level="full"):
             add(Op("autoray.eigh(x+x.H)", lambda x: ar.do("linalg.eigh", _herm(x)), tags=("linalg", "eigh")))
             add(Op("solve(x+6,b)", lambda x: sr.linalg.solve(_dominant(x), _rhs(x)), tags=("linalg", "solve")))
     return ops
+
+
+def _sparse(y, offset=0):
+    """y (a fresh array made by the caller) with every other stored sector removed"""
+    for k, sec in enumerate(sorted(y.blocks)):
+        if (k + offset) % 2 == 0:
+            del y.blocks[sec]
+            if getattr(y, "fermionic", False):
+                y.phases.pop(sec, None)
+    return y
 
 
 def _mut(y, f):
